@@ -144,6 +144,9 @@ expect("DomCHK mutant sibling_shortcut violates Inv: intersect returning the com
 r = tlc("algo/DomCHK", "MCDomCHKNeg_last_changed.cfg", workers=8, timeout=600)
 expect("DomCHK mutant last_changed violates Inv (N=5, <= 7 edges): the fixpoint flag reflecting only the last node of a sweep", any("Invariant Inv is violated" in e for e in r.errors), str(r.errors[:1]))
 
+r = tlc("algo/TarjanPearce", "MCTarjanPearceNeg_entry_index.cfg", workers=6, timeout=300)
+expect("TarjanPearce mutant entry_index violates Inv: lowlink compared with the index a node got on entry", any("Invariant Inv is violated" in e for e in r.errors), str(r.errors[:1]))
+
 bad = [r for r in results if not r["ok"]]
 os.makedirs(os.path.join(VERIF, "evidence"), exist_ok=True)
 json.dump({"tests": results, "failed": len(bad)}, open(os.path.join(VERIF, "evidence", "selftest.json"), "w"), indent=1)
